@@ -103,6 +103,8 @@ class VecEval:
             c = self.expr(s.test)
             if isinstance(c, Buf):
                 c = True
+            if isinstance(c, PyList):
+                c = len(c) > 0
             if isinstance(c, list):
                 raise Unsupported('truth value of a vector')
             self.block(s.body if c else s.orelse)
@@ -142,6 +144,8 @@ class VecEval:
             guard = 0
             while True:
                 c = self.expr(s.test)
+                if isinstance(c, PyList):
+                    c = len(c) > 0
                 if isinstance(c, list):
                     raise Unsupported('truth value of a vector')
                 if not c:
@@ -306,7 +310,10 @@ class VecEval:
         if isinstance(e, ast.IfExp):
             return self.expr(e.body) if self.expr(e.test) else self.expr(e.orelse)
         if isinstance(e, ast.Subscript):
-            base_txt = ast.unparse(e.value)
+            t_ = _UNPARSE.get(id(e.value))
+            if t_ is None:
+                t_ = _UNPARSE[id(e.value)] = (ast.unparse(e.value), e.value)
+            base_txt = t_[0]
             if base_txt in ('self', 'self.data') and isinstance(e.slice, ast.Slice):
                 lo = self.expr(e.slice.lower) if e.slice.lower is not None else None
                 hi = self.expr(e.slice.upper) if e.slice.upper is not None else None
@@ -349,14 +356,20 @@ class VecEval:
                     return base[i]
             raise Unsupported('subscript')
         if isinstance(e, ast.Attribute):
-            if ast.unparse(e) in ('np.uint32', 'np.int64', 'np.intp', 'np.uint64', 'np.int32'):
+            t_ = _UNPARSE.get(id(e))
+            if t_ is None:
+                t_ = _UNPARSE[id(e)] = (ast.unparse(e), e)
+            txt_ = t_[0]
+            if txt_ in ('np.uint32', 'np.int64', 'np.intp', 'np.uint64', 'np.int32'):
                 return 'int'
-            if ast.unparse(e) in ('np.inf', 'numpy.inf', 'math.inf', 'np.Inf', 'np.PINF'):
+            if txt_ in ('np.inf', 'numpy.inf', 'math.inf', 'np.Inf', 'np.PINF'):
                 return float('inf')
-            if ast.unparse(e) in ('np.nan', 'numpy.nan', 'math.nan', 'np.NaN'):
+            if txt_ in ('np.nan', 'numpy.nan', 'math.nan', 'np.NaN'):
                 return float('nan')
-            if ast.unparse(e) in ('np.float64', 'np.float32', 'np.bool_'):
+            if txt_ in ('np.float64', 'np.float32', 'np.bool_'):
                 return 'dtype'
+            if isinstance(e.value, ast.Name) and e.value.id == 'self' and isinstance(self.env.get('self'), Stub) and hasattr(self.env['self'], e.attr):
+                return getattr(self.env['self'], e.attr)
             base = self.expr(e.value) if not (isinstance(e.value, ast.Name) and e.value.id in ('np', 'numpy', 'self', 'pa', 'pd')) else None
             if isinstance(base, list) and e.attr == 'size':
                 return len(base) * (len(base[0]) if base and isinstance(base[0], list) else 1)
@@ -376,7 +389,10 @@ class VecEval:
         raise Unsupported(type(e).__name__)
 
     def call(self, e):
-        fn = ast.unparse(e.func)
+        t_ = _UNPARSE.get(id(e.func))
+        if t_ is None:
+            t_ = _UNPARSE[id(e.func)] = (ast.unparse(e.func), e.func)
+        fn = t_[0]
         short = fn.split('.')[-1]
         if fn in ('self.__class__', 'type(self)', 'self._constructor', 'self.__class__._from_arrow') and e.args:
             return self.expr(e.args[0])          # re-wrapping arrow data in the receiver's class keeps the positions
@@ -413,6 +429,22 @@ class VecEval:
                 pos = [k for k, m in enumerate(v) if m]
                 return pos if fn.endswith('flatnonzero') else (pos,)
             raise Unsupported('nonzero of a non-vector')
+        if isinstance(e.func, ast.Attribute) and isinstance(e.func.value, ast.Name) and isinstance(self.env.get(e.func.value.id), PyList) and e.func.attr in ('append', 'extend', 'pop', 'insert', 'clear'):
+            lst = self.env[e.func.value.id]
+            args_ = [self.expr(a) for a in e.args]
+            if e.func.attr == 'append':
+                lst.append(args_[0])
+                return None
+            if e.func.attr == 'extend':
+                lst.extend(list(args_[0]))
+                return None
+            if e.func.attr == 'pop':
+                return lst.pop(*args_)
+            if e.func.attr == 'insert':
+                lst.insert(*args_)
+                return None
+            lst.clear()
+            return None
         if fn in ('np.isscalar', 'numpy.isscalar') and e.args:
             return not isinstance(self.expr(e.args[0]), (list, tuple))
         if isinstance(e.func, ast.Attribute) and isinstance(e.func.value, ast.Name) and e.func.value.id == 'self' and fn not in ('self.take',) and self.func.cls is not None:
@@ -420,6 +452,9 @@ class VecEval:
             if mem is not None and mem[0] == 'func' and mem[1].kind == 'method' and not e.keywords and len(e.args) == len(mem[1].params) - 1:
                 h = mem[1]
                 sub = VecEval(self.P, h, dict(zip(h.params[1:], [self.expr(a) for a in e.args])), self.n)
+                if 'self' in self.env:
+                    sub.env['self'] = self.env['self']
+                sub.ncols = getattr(self, 'ncols', None)
                 try:
                     sub.block(h.node.body)
                 except Returned as ret:
